@@ -104,6 +104,14 @@ def run_case(case):
                 "n": len(sigs)}
     # trajectory
     from nasim.envs import NASimEnv
+    if case.get("warmup"):
+        # another scenario of the same shape is built and used first
+        wsc, _wsp = build_source(case["warmup"])
+        wenv = NASimEnv(wsc, **case["modes"])
+        wenv.reset()
+        np.random.seed(1)
+        for a in range(min(6, wenv.action_space.n)):
+            wenv.step(a)
     sc, sp = build_source(case["source"])
     env = NASimEnv(sc, **case["modes"])
     def play():
@@ -255,6 +263,15 @@ def run(prop, tier, seed, shard, nshards):
                           "modes": {"fully_obs": rng.random() < 0.5,
                                     "flat_actions": True,
                                     "flat_obs": rng.random() < 0.5}})
+            if src["type"] == "synth" and rng.random() < 0.5:
+                # the same seeded run, but after a twin scenario of the same
+                # shape (renamed / re-ordered names) was built in the process
+                from ..twins import any_twin
+                tw = any_twin(sp, rng)
+                meta.append((ctype, cid))
+                cases.append(dict(cases[-1], warmup={
+                    "type": "synth", "route": src["route"],
+                    "spec": tw.canonical()}, group=len(cases) - 1))
         meta.append((ctype, cid))
     outs = spawn_children(cases, tier)
     errs = [o for o in outs if "error" in o]
@@ -301,6 +318,16 @@ def run(prop, tier, seed, shard, nshards):
                 {"fingerprints": fps,
                  "hashseeds": [o["hashseed"] for o in outs]}, wit)
         acc.count("cases:" + ctype)
+        if c.get("warmup"):
+            base = [o["results"][c["group"]] for o in outs]
+            acc.count("trajectories_replayed_after_a_twin_scenario")
+            if any("err" in b for b in base) or \
+                    [b["fp"] for b in base] != fps:
+                acc.violation(
+                    "trajectory_depends_on_previously_built_environment",
+                    "trajectory_depends_on_previous_environment",
+                    {"alone": [b.get("fp") for b in base],
+                     "after_twin": fps}, wit)
         if ctype in ("gen", "bench"):
             if res[0]["branch"] > 0:
                 acc.nontrivial("gen", c.get("params") and
@@ -325,6 +352,17 @@ def replay(prop, path):
     with open(path) as f:
         doc = json.load(f)
     c = doc["violation"]["witness"]["case"]
+    if c.get("warmup"):
+        base = {k: v for k, v in c.items() if k not in ("warmup", "group")}
+        outs = spawn_children([base, dict(c, group=0)], "quick")
+        a = [o["results"][0].get("fp") for o in outs if "error" not in o]
+        b = [o["results"][1].get("fp") for o in outs if "error" not in o]
+        if a != b:
+            print(f"VIOLATION property={prop} replay={path}")
+            print("  alone:", a, "after twin:", b)
+            return 1
+        print(f"replay of {path}: property {prop} held")
+        return 0
     outs = spawn_children([c], "thorough")
     fps = [o["results"][0].get("fp") for o in outs if "error" not in o]
     ag = [o["results"][0].get("fp_again") for o in outs if "error" not in o]
